@@ -3,7 +3,10 @@ From Coq Require Import List Arith NArith Bool.
 Import ListNotations.
 Require Import Aiuti.CaseLib Aiuti.Cache Aiuti.CacheMon Aiuti.Case_Cache.
 
-Definition ok (c : case) : bool := match c with Case n tbl tr => ok_C01 tbl tr end.
+(* a `Bad` entry = the driver could not classify an event, or the re-run with the DEFAULT dict cache
+   (cache=None) gave different observable events: rejected outright (the model never produces it) *)
+Definition no_bad (tr : list ev) : bool := forallb (fun e => match e with Bad _ => false | _ => true end) tr.
+Definition ok (c : case) : bool := match c with Case n tbl tr => ok_C01 tbl tr && no_bad tr end.
 (* non-trivial: the function was invoked and at least two callers were answered, or at least two
    callers went through the locked section *)
 Definition nontrivial (c : case) : bool :=
